@@ -23,7 +23,7 @@ from vfw.support import NoTracing
 FUNCTIONS = ["jinja2.compiler (try/finally aclose around block / include / extends generators: visit_Block, visit_Include, visit_Extends, visit_For loop-filter functions)",
              "Template.generate_async (aclosing) / render_async", "jinja2.async_utils.auto_aiter / auto_to_list", "jinja2.runtime.AsyncLoopContext / BlockReference._async_call",
              "jinja2.filters async generator helpers (do_map, select_or_reject, ...)"]
-OUTSIDE = ["the asyncio event loop (task cancellation is modelled as CancelledError thrown at a suspension point)", "templates outside the corpus", "more than 8 suspension points"]
+OUTSIDE = ["the asyncio event loop (task cancellation is modelled as CancelledError thrown at a suspension point)", "templates outside the corpus", "more than 10 suspension points"]
 ASSUMPTIONS = ["a generator is 'closed' when its frame is gone (ag_frame is None)"]
 
 TPLS = {
@@ -41,12 +41,19 @@ TPLS = {
     "page2": "{% extends 'page' %}{% block content %}[{{ super() }}]{% for x in ait(xs) %}{{ self.title() }}{% endfor %}{% endblock %}{% block foot %}{{ super() }}{{ af(5) }}{% endblock %}",
     "incloop": "{% for x in ait(xs) %}{% include ['nope', 'part'] %}{% include 'missing' ignore missing %}{% with v = af(x) %}{% include 'leaf' %}{% endwith %}{% endfor %}",
     "dynext": "{% extends parent %}{% block body %}D{{ af(4) }}{% endblock %}",
+    # every form of include / extends delegates to another template's generator
+    "incforms": "{% include 'part' ignore missing %}|{% include ['nope', 'leaf'] ignore missing %}|{% include 'leaf' without context %}|{% include 'part' ignore missing with context %}"
+                "{% for x in ait(xs) %}{% include 'leaf' ignore missing %}{% endfor %}",
+    "condext": "{% if parent %}{% extends parent %}{% endif %}{% block body %}E{{ af(6) }}{{ super() }}{% endblock %}",
+    "condext2": "{% if xs %}{% extends 'child' %}{% else %}{% extends 'base' %}{% endif %}{% block head %}F{{ af(7) }}{{ super() }}{% endblock %}",
+    "importforms": "{% from 'macros' import m %}{% import 'macros' as lib with context %}{{ m(1) }}{% call lib.m(2) %}{% include 'leaf' ignore missing %}{% endcall %}",
     # constructs known (on the unchanged tree) to leave helper generators open on early exit: kept in separate templates
     "loopfilter": "{% for x in ait(xs) if x > 0 %}{{ af(x) }}{% endfor %}",
     "afilters": "{{ ait(xs)|map('string')|join(',') }}{{ af(1) }}{% for v in ait(xs)|select('odd') %}{{ af(v) }}{% endfor %}",
     "afirst": "{{ ait(xs)|first }}{{ af(1) }}",
 }
-MAIN = ["base", "child", "grand", "usemac", "loops", "setfilter", "page", "page2", "incloop", "dynext", "loopfilter", "afilters", "afirst"]
+MAIN = ["base", "child", "grand", "usemac", "loops", "setfilter", "page", "page2", "incloop", "dynext", "incforms", "condext", "condext2", "importforms",
+        "loopfilter", "afilters", "afirst"]
 KNOWN_LEAKY = {"loopfilter", "afilters"}
 P = {}
 ENV = None
@@ -204,11 +211,11 @@ MODES = ["complete", "aclose", "athrow", "cancel", "cancel-in-anext", "raise"]
 
 def closed_ok(mode: int, k: int, nitems: int) -> bool:
     """
-    pre: 0 <= mode < len(MODES) and 0 <= k <= 8 and 0 <= nitems <= 2
+    pre: 0 <= mode < len(MODES) and 0 <= k <= 10 and 0 <= nitems <= 2
     post: _
     """
     m = MODES[pick(mode, len(MODES))]
-    kk = pick(k, 9)
+    kk = pick(k, 11)
     n = pick(nitems, 3)
     with NoTracing():
         return scenario_native(P.get("tpl", "base"), m, kk, n)
@@ -223,7 +230,7 @@ def conditions(tier, seed):
             continue
         out.append(Cond(f"closed[{name}]", "closed_ok", mode="B", param={"tpl": name}, timeout=to,
                         witnesses=[[0, 0, 2], [1, 1, 2], [3, 2, 1], [2, 0, 0], [5, 1, 2]],
-                        bounds="6 interruption modes x interruption index 0..8 x 0..2 items in the async iterables"))
+                        bounds="6 interruption modes x interruption index 0..10 x 0..2 items in the async iterables"))
     return out
 
 
